@@ -1,21 +1,18 @@
 import JL.Lemmas.Monad
+import JL.Lemmas.C05
 /-!
 # C05 — `if` / `?:` / `and` / `or` select and evaluate only the deciding operands
+
+The model writes these operators the way `src/op/logic.rs` does (flag-carrying folds over the raw operand
+list: `runIf` with state (last, wasTruthy, shouldReturn) and an index, `runOrAnd` with `OrState`). The theorems
+below say that the folds are the plain recursive specifications `ifSpec` / `orSpec` / `andSpec` of
+`JL/Spec/C05.lean`, as equalities in the full monad `M`: value, error/panic outcome AND the log lines.
+`ev d e = if check e then run e d else M.err` is the lazy parse-then-evaluate of one operand; an operand the
+specification does not reach is neither parsed nor evaluated, which the `poison` theorems make explicit:
+such an operand can be replaced by ANY rule (erroring, logging, unparsable) without changing `(logs, out)`.
 -/
 namespace JL.Props.C05
-open JL Json
-
-/-- lazy parse-then-evaluate of one operand, as the code does for every operand it needs -/
-def ev (d : Json) (e : Json) : M Json := if check e then run e d else M.err
-
-/-- the specification of `if`: conditions left to right; the branch of the first truthy condition; else the
-trailing else-operand; else null. Operands not mentioned on the path taken are neither parsed nor evaluated. -/
-def ifSpec (d : Json) : List Json → M Json
-  | [] => pure .null
-  | [e] => ev d e
-  | c :: t :: rest => do
-      let cv ← ev d c
-      if truthy cv then ev d t else ifSpec d rest
+open JL Json JL.Lemmas.C05
 
 /-- `?:` is bound to the same function as `if` in the regenerated table -/
 theorem alias_same_function :
@@ -36,9 +33,218 @@ theorem alias (a d : Json) : apply (.obj [("?:".toList, a)]) d = apply (.obj [("
   simp only [h1, h2]
   simp
 
+/-! ## `if` / `?:` -/
+
+/-- the fold of `logic::if_`, entered at any condition position (even index) with a clean state, is the
+recursive specification on the remaining operands -/
+theorem runIf_spec (xs : List Json) (i : Nat) (w : Bool) (d : Json) (hi : i % 2 = 0) :
+    runIf xs i (.null, w, false) d = ifSpec d xs := runIf_even xs i w d hi
+
+/-- once the branch has been taken the fold evaluates nothing more -/
+theorem runIf_returned (xs : List Json) (i : Nat) (l : Json) (w : Bool) (d : Json) :
+    runIf xs i (l, w, true) d = ⟨[], .ok l⟩ := runIf_done xs i l w d
+
+/-- **if_spec** (evaluation phase): `{"if": [x₀, x₁, …]}` is `ifSpec` -/
+theorem if_spec (xs : List Json) (d : Json) : run (.obj [("if".toList, .arr xs)]) d = ifSpec d xs :=
+  run_if_arr _ (.inl rfl) xs d
+
+/-- a single unbracketed operand is returned as evaluated -/
+theorem if_spec_unary (x d : Json) (hx : ∀ xs, x ≠ .arr xs) : run (.obj [("if".toList, x)]) d = ev d x :=
+  run_if_unary _ (.inl rfl) x d hx
+
+theorem tern_spec (xs : List Json) (d : Json) : run (.obj [("?:".toList, .arr xs)]) d = ifSpec d xs :=
+  run_if_arr _ (.inr rfl) xs d
+
+theorem tern_spec_unary (x d : Json) (hx : ∀ xs, x ≠ .arr xs) : run (.obj [("?:".toList, x)]) d = ev d x :=
+  run_if_unary _ (.inr rfl) x d hx
+
+/-- **if_spec** at the public entry point: parse (which cannot fail for `if`) then evaluate -/
+theorem if_apply (xs : List Json) (d : Json) : apply (.obj [("if".toList, .arr xs)]) d = ifSpec d xs := by
+  unfold apply; rw [check_if _ (.inl rfl)]; exact if_spec xs d
+
+theorem tern_apply (xs : List Json) (d : Json) : apply (.obj [("?:".toList, .arr xs)]) d = ifSpec d xs := by
+  unfold apply; rw [check_if _ (.inr rfl)]; exact tern_spec xs d
+
+theorem if_apply_unary (x d : Json) (hx : ∀ xs, x ≠ .arr xs) : apply (.obj [("if".toList, x)]) d = ev d x := by
+  unfold apply; rw [check_if _ (.inl rfl)]; exact if_spec_unary x d hx
+
+/-- the readable corollaries of the specification -/
+theorem if_none (d : Json) : apply (.obj [("if".toList, .arr [])]) d = ⟨[], .ok .null⟩ := if_apply [] d
+theorem if_single (e d : Json) : apply (.obj [("if".toList, .arr [e])]) d = apply e d := if_apply [e] d
+
+/-- truthy condition: the result is the condition's log lines followed by the branch — nothing else -/
+theorem if_then (d c t : Json) (rest l : List Json) (v : Json) (hc : ev d c = ⟨l, .ok v⟩) (hv : truthy v = true) :
+    apply (.obj [("if".toList, .arr (c :: t :: rest))]) d = ⟨l ++ (ev d t).logs, (ev d t).out⟩ := by
+  rw [if_apply]; exact ifSpec_cond_truthy d c t rest l v hc hv
+
+/-- falsy condition: the paired branch is skipped (not parsed, not evaluated), the rest decides -/
+theorem if_else (d c t : Json) (rest l : List Json) (v : Json) (hc : ev d c = ⟨l, .ok v⟩) (hv : truthy v = false) :
+    apply (.obj [("if".toList, .arr (c :: t :: rest))]) d =
+      ⟨l ++ (apply (.obj [("if".toList, .arr rest)]) d).logs, (apply (.obj [("if".toList, .arr rest)]) d).out⟩ := by
+  rw [if_apply, if_apply]; exact ifSpec_cond_falsy d c t rest l v hc hv
+
+/-! ### poison: operands off the path taken can be anything -/
+
+/-- after the first truthy condition and its branch, everything can be replaced by anything;
+`pre` is any number of whole (condition, branch) pairs in front -/
+theorem if_poison_after (d : Json) (pre : List Json) (hpre : pre.length % 2 = 0) (c t : Json) (rest rest' l : List Json) (v : Json)
+    (hc : ev d c = ⟨l, .ok v⟩) (hv : truthy v = true) :
+    ifSpec d (pre ++ c :: t :: rest) = ifSpec d (pre ++ c :: t :: rest') := by
+  apply ifSpec_prefix _ _ _ _ pre hpre
+  rw [ifSpec_cond_truthy d c t rest l v hc hv, ifSpec_cond_truthy d c t rest' l v hc hv]
+
+/-- the branch paired with a falsy condition can be replaced by anything -/
+theorem if_poison_branch (d : Json) (pre : List Json) (hpre : pre.length % 2 = 0) (c t t' : Json) (rest l : List Json) (v : Json)
+    (hc : ev d c = ⟨l, .ok v⟩) (hv : truthy v = false) :
+    ifSpec d (pre ++ c :: t :: rest) = ifSpec d (pre ++ c :: t' :: rest) := by
+  apply ifSpec_prefix _ _ _ _ pre hpre
+  rw [ifSpec_cond_falsy d c t rest l v hc hv, ifSpec_cond_falsy d c t' rest l v hc hv]
+
+/-- after a condition that fails (error or panic), everything can be replaced by anything -/
+theorem if_poison_failed (d : Json) (pre : List Json) (hpre : pre.length % 2 = 0) (c : Json) (rest rest' : List Json)
+    (hc : ∀ v, (ev d c).out ≠ .ok v) :
+    ifSpec d (pre ++ c :: rest) = ifSpec d (pre ++ c :: rest') := by
+  apply ifSpec_prefix _ _ _ _ pre hpre
+  rw [ifSpec_cond_fail d c rest hc, ifSpec_cond_fail d c rest' hc]
+
+/-- **poison** for `if` at the public entry point, values, errors and log lines -/
+theorem if_poison (d : Json) (pre : List Json) (hpre : pre.length % 2 = 0) (c t : Json) (rest rest' l : List Json) (v : Json)
+    (hc : ev d c = ⟨l, .ok v⟩) (hv : truthy v = true) :
+    apply (.obj [("if".toList, .arr (pre ++ c :: t :: rest))]) d = apply (.obj [("if".toList, .arr (pre ++ c :: t :: rest'))]) d := by
+  rw [if_apply, if_apply]; exact if_poison_after d pre hpre c t rest rest' l v hc hv
+
+/-! ## `or` / `and` -/
+
+/-- the fold of `logic::or` from its initial state, followed by the read-out of the state, is `orSpec` -/
+theorem or_spec (xs : List Json) (d : Json) : run (.obj [("or".toList, .arr xs)]) d = orSpec d xs := run_or_arr xs d
+theorem and_spec (xs : List Json) (d : Json) : run (.obj [("and".toList, .arr xs)]) d = andSpec d xs := run_and_arr xs d
+
+theorem or_spec_unary (x d : Json) (hx : ∀ xs, x ≠ .arr xs) : run (.obj [("or".toList, x)]) d = ev d x := run_or_unary x d hx
+theorem and_spec_unary (x d : Json) (hx : ∀ xs, x ≠ .arr xs) : run (.obj [("and".toList, x)]) d = ev d x := run_and_unary x d hx
+
+/-- at the public entry point (the parse only demands at least one operand; `orSpec d [] = M.err` too) -/
+theorem or_apply (xs : List Json) (d : Json) : apply (.obj [("or".toList, .arr xs)]) d = orSpec d xs := by
+  unfold apply; rw [check_oa _ (.inl rfl)]
+  cases xs with
+  | nil => rfl
+  | cons x xs => simpa using or_spec (x :: xs) d
+
+theorem and_apply (xs : List Json) (d : Json) : apply (.obj [("and".toList, .arr xs)]) d = andSpec d xs := by
+  unfold apply; rw [check_oa _ (.inr rfl)]
+  cases xs with
+  | nil => rfl
+  | cons x xs => simpa using and_spec (x :: xs) d
+
+theorem or_apply_unary (x d : Json) (hx : ∀ xs, x ≠ .arr xs) : apply (.obj [("or".toList, x)]) d = ev d x := by
+  unfold apply; rw [check_oa_unary _ (.inl rfl) x hx]; exact or_spec_unary x d hx
+
+theorem and_apply_unary (x d : Json) (hx : ∀ xs, x ≠ .arr xs) : apply (.obj [("and".toList, x)]) d = ev d x := by
+  unfold apply; rw [check_oa_unary _ (.inr rfl) x hx]; exact and_spec_unary x d hx
+
+/-- a truthy operand of `or` is returned as the value it is (not a boolean), with its own log lines only -/
+theorem or_first_truthy (d x : Json) (ys l : List Json) (v : Json) (hx : ev d x = ⟨l, .ok v⟩) (hv : truthy v = true) :
+    orSpec d (x :: ys) = ⟨l, .ok v⟩ := by
+  rw [← oaSpec_or]; exact oaSpec_decided true d x ys l v hx hv
+
+theorem and_first_falsy (d x : Json) (ys l : List Json) (v : Json) (hx : ev d x = ⟨l, .ok v⟩) (hv : truthy v = false) :
+    andSpec d (x :: ys) = ⟨l, .ok v⟩ := by
+  rw [← oaSpec_and]; exact oaSpec_decided false d x ys l v hx hv
+
+/-- **poison** for `or`: whatever stands after a truthy operand is irrelevant (`xs` arbitrary: if an earlier
+operand already decides, the equality holds all the more) -/
+theorem or_poison (d : Json) (xs : List Json) (x : Json) (ys ys' l : List Json) (v : Json)
+    (hx : ev d x = ⟨l, .ok v⟩) (hv : truthy v = true) :
+    orSpec d (xs ++ x :: ys) = orSpec d (xs ++ x :: ys') := by
+  simp only [← oaSpec_or]
+  apply oaSpec_prefix
+  rw [oaSpec_decided true d x ys l v hx hv, oaSpec_decided true d x ys' l v hx hv]
+
+/-- **poison** for `and`: whatever stands after a falsy operand is irrelevant -/
+theorem and_poison (d : Json) (xs : List Json) (x : Json) (ys ys' l : List Json) (v : Json)
+    (hx : ev d x = ⟨l, .ok v⟩) (hv : truthy v = false) :
+    andSpec d (xs ++ x :: ys) = andSpec d (xs ++ x :: ys') := by
+  simp only [← oaSpec_and]
+  apply oaSpec_prefix
+  rw [oaSpec_decided false d x ys l v hx hv, oaSpec_decided false d x ys' l v hx hv]
+
+/-- whatever stands after a failing operand of `or`/`and` is irrelevant -/
+theorem or_poison_failed (d : Json) (xs : List Json) (x : Json) (ys ys' : List Json) (hx : ∀ v, (ev d x).out ≠ .ok v) :
+    orSpec d (xs ++ x :: ys) = orSpec d (xs ++ x :: ys') := by
+  simp only [← oaSpec_or]
+  apply oaSpec_prefix
+  rw [oaSpec_fail true d x ys hx, oaSpec_fail true d x ys' hx]
+
+theorem and_poison_failed (d : Json) (xs : List Json) (x : Json) (ys ys' : List Json) (hx : ∀ v, (ev d x).out ≠ .ok v) :
+    andSpec d (xs ++ x :: ys) = andSpec d (xs ++ x :: ys') := by
+  simp only [← oaSpec_and]
+  apply oaSpec_prefix
+  rw [oaSpec_fail false d x ys hx, oaSpec_fail false d x ys' hx]
+
+/-- **poison** for `or` / `and` at the public entry point -/
+theorem or_poison_apply (d : Json) (xs : List Json) (x : Json) (ys ys' l : List Json) (v : Json)
+    (hx : ev d x = ⟨l, .ok v⟩) (hv : truthy v = true) :
+    apply (.obj [("or".toList, .arr (xs ++ x :: ys))]) d = apply (.obj [("or".toList, .arr (xs ++ x :: ys'))]) d := by
+  rw [or_apply, or_apply]; exact or_poison d xs x ys ys' l v hx hv
+
+theorem and_poison_apply (d : Json) (xs : List Json) (x : Json) (ys ys' l : List Json) (v : Json)
+    (hx : ev d x = ⟨l, .ok v⟩) (hv : truthy v = false) :
+    apply (.obj [("and".toList, .arr (xs ++ x :: ys))]) d = apply (.obj [("and".toList, .arr (xs ++ x :: ys'))]) d := by
+  rw [and_apply, and_apply]; exact and_poison d xs x ys ys' l v hx hv
+
+/-! ## non-vacuity
+
+`logC n` is the logging rule `{"log": n}`, `bad` the always-erroring `{"==": []}` (its parse fails: wrong operand
+count), `boom` the always-erroring `{"+": ["x"]}` (parses; its evaluation fails). -/
+
+private def logC (n : Nat) : Json := .obj [("log".toList, .num (.pos n))]
+private def bad : Json := .obj [("==".toList, .arr [])]
+private def boom : Json := .obj [("+".toList, .arr [.str "x".toList])]
+
 example : apply (.obj [("if".toList, .arr [.bool false, .num (.pos 1), .bool true, .num (.pos 2), .num (.pos 3)])]) .null = ⟨[], .ok (.num (.pos 2))⟩ := by
   decide +kernel
 example : apply (.obj [("or".toList, .arr [.num (.pos 1), .obj [("==".toList, .arr [.num (.pos 1)])]])]) .null = ⟨[], .ok (.num (.pos 1))⟩ := by
   decide +kernel
+
+-- the poisons really are poisonous when reached, and really log when reached
+example : apply bad .null = ⟨[], .err⟩ ∧ apply boom .null = ⟨[], .err⟩ ∧ apply (logC 7) .null = ⟨[.num (.pos 7)], .ok (.num (.pos 7))⟩ := by
+  decide +kernel
+
+-- hypotheses of `if_then` / `if_poison` / `if_poison_after`: a logging, truthy condition
+example : ev .null (logC 1) = ⟨[.num (.pos 1)], .ok (.num (.pos 1))⟩ ∧ truthy (.num (.pos 1)) = true := by decide +kernel
+-- … and the conclusion on a concrete instance: one falsy pair in front, poisoned tail of both kinds; only the
+-- condition's and the branch's lines are logged, in order
+example : apply (.obj [("if".toList, .arr [.num (.pos 0), bad, logC 1, logC 2, bad, boom, logC 3])]) .null
+    = ⟨[.num (.pos 1), .num (.pos 2)], .ok (.num (.pos 2))⟩ := by decide +kernel
+-- hypotheses of `if_else` / `if_poison_branch`: a logging, falsy condition; the skipped branch is unparsable
+example : ev .null (logC 0) = ⟨[.num (.pos 0)], .ok (.num (.pos 0))⟩ ∧ truthy (.num (.pos 0)) = false := by decide +kernel
+example : apply (.obj [("if".toList, .arr [logC 0, bad, .str "else".toList])]) .null = ⟨[.num (.pos 0)], .ok (.str "else".toList)⟩ := by
+  decide +kernel
+-- hypothesis of `if_poison_failed`: a failing condition (after a logging falsy pair): the log line survives, the rest is dead
+example : ∀ v, (ev .null boom).out ≠ .ok v := by
+  have h : (ev .null boom).out = .err := by decide +kernel
+  intro v; rw [h]; exact fun h => nomatch h
+example : apply (.obj [("if".toList, .arr [logC 0, logC 9, boom, logC 1, logC 2])]) .null = ⟨[.num (.pos 0)], .err⟩ := by decide +kernel
+-- a poison that IS reached does fire (the statements are not trivially true of every operand)
+example : apply (.obj [("if".toList, .arr [.bool true, bad, .num (.pos 1)])]) .null = ⟨[], .err⟩ := by decide +kernel
+-- `?:`
+example : apply (.obj [("?:".toList, .arr [logC 1, logC 2, bad])]) .null = ⟨[.num (.pos 1), .num (.pos 2)], .ok (.num (.pos 2))⟩ := by decide +kernel
+-- unary forms
+example : apply (.obj [("if".toList, logC 4)]) .null = ⟨[.num (.pos 4)], .ok (.num (.pos 4))⟩ ∧ (∀ xs, logC 4 ≠ .arr xs) := by
+  refine ⟨by decide +kernel, fun xs h => by simp [logC] at h⟩
+
+-- `or_poison` / `or_first_truthy`: falsy logging operands in front, then a truthy one, then poison
+example : apply (.obj [("or".toList, .arr [logC 0, .str [], logC 5, bad, boom, logC 6])]) .null
+    = ⟨[.num (.pos 0), .num (.pos 5)], .ok (.num (.pos 5))⟩ := by decide +kernel
+example : ev .null (logC 5) = ⟨[.num (.pos 5)], .ok (.num (.pos 5))⟩ ∧ truthy (.num (.pos 5)) = true := by decide +kernel
+-- `or`: no truthy operand: the LAST value, itself
+example : apply (.obj [("or".toList, .arr [.bool false, .num (.pos 0), .arr []])]) .null = ⟨[], .ok (.arr [])⟩ := by decide +kernel
+-- `and_poison` / `and_first_falsy`
+example : apply (.obj [("and".toList, .arr [logC 1, .str "a".toList, logC 0, bad, boom, logC 6])]) .null
+    = ⟨[.num (.pos 1), .num (.pos 0)], .ok (.num (.pos 0))⟩ := by decide +kernel
+example : apply (.obj [("and".toList, .arr [.bool true, .num (.pos 1), .str "z".toList])]) .null = ⟨[], .ok (.str "z".toList)⟩ := by decide +kernel
+-- `or_poison_failed`
+example : apply (.obj [("or".toList, .arr [logC 0, boom, logC 1])]) .null = ⟨[.num (.pos 0)], .err⟩ := by decide +kernel
+-- no operand
+example : apply (.obj [("or".toList, .arr [])]) .null = ⟨[], .err⟩ ∧ apply (.obj [("and".toList, .arr [])]) .null = ⟨[], .err⟩ := by decide +kernel
 
 end JL.Props.C05
